@@ -769,6 +769,156 @@ theorem every_hop_target (cfg : Cfg) (adv : List Req → Reply) (r : Req) :
   rw [this]; unfold target wantFull
   split <;> simp_all
 
+/-! ### the login attributes of every hop are the configured login (never credentials taken from a URL) -/
+
+/-- `q` carries the login attributes of the first request `r`, or none -/
+def LoginOk (r q : Req) : Prop :=
+  (q.username = r.username ∧ q.password = r.password) ∨ (q.username = [] ∧ q.password = [])
+
+theorem addBasicAuth_login (cfg : Cfg) (q : Req) :
+    (addBasicAuth cfg q).username = q.username ∧ (addBasicAuth cfg q).password = q.password := by
+  rw [addBasicAuth_eq]; split <;> exact ⟨rfl, rfl⟩
+
+theorem sendPrep_login (cfg : Cfg) (s : Sess) (q : Req) :
+    (sendPrep cfg s q).username = q.username ∧ (sendPrep cfg s q).password = q.password := by
+  unfold sendPrep
+  simp only []
+  split
+  · exact ⟨(addBasicAuth_login cfg q).1, (addBasicAuth_login cfg q).2⟩
+  · exact ⟨rfl, rfl⟩
+
+theorem LoginOk.of_eq {r q q' : Req} (h : LoginOk r q) (hu : q'.username = q.username) (hp : q'.password = q.password) :
+    LoginOk r q' := by
+  unfold LoginOk at *; rw [hu, hp]; exact h
+
+/-- invariant of the session state -/
+def LoginInv (r : Req) (s : Sess) : Prop := LoginOk r s.orig ∧ ∀ q, s.cur = some q → LoginOk r q
+
+theorem setCur_loginInv {r : Req} {s : Sess} {q : Req} (h : LoginInv r s) (hq : LoginOk r q) : LoginInv r (s.setCur q) := by
+  unfold Sess.setCur LoginInv
+  refine ⟨?_, ?_⟩
+  · simp only []; split
+    · exact hq
+    · exact h.1
+  · intro q' hq'; simp at hq'; subst hq'; exact hq
+
+theorem processRedirect_loginInv (cfg : Cfg) (r : Req) (s s' : Sess) (st : Nat) (hasLoc : Bool) (tgt : Target)
+    (hi : LoginInv r s) (h : processRedirect cfg s st hasLoc tgt = .ok s') : LoginInv r s' := by
+  unfold processRedirect at h
+  by_cases h1 : s.numRedirects > cfg.maxRedirects
+  · simp [h1] at h
+  · by_cases h2 : (!hasLoc) = true
+    · simp [h1, h2] at h
+    · cases tgt with
+      | invalid => simp [h1, h2] at h
+      | other => simp [h1, h2] at h
+      | url u =>
+        simp only [h1, h2, if_false] at h
+        cases h
+        refine ⟨hi.1, ?_⟩
+        intro q hq
+        simp only [Option.some.injEq] at hq
+        subst hq
+        by_cases hr : isRepeatCode st = true
+        · simp only [hr, if_true]
+          exact LoginOk.of_eq hi.1 (by simp [prepareForSend, resetUrlBound]) (by simp [prepareForSend, resetUrlBound])
+        · simp only [hr]
+          exact Or.inr ⟨by simp [prepareForSend, freshReq], by simp [prepareForSend, freshReq]⟩
+
+theorem processResponse_loginInv (cfg : Cfg) (r : Req) (s s2 : Sess) (q : Req) (st : Nat) (hasLoc : Bool) (tgt : Target)
+    (hi : LoginInv r s) (hq : LoginOk r q)
+    (h : processResponse cfg s q st hasLoc tgt = .ok s2) : LoginInv r s2 := by
+  unfold processResponse at h
+  simp only [] at h
+  split at h
+  · cases h
+  · rename_i s' hmain
+    have hs' : LoginInv r s' := by
+      split at hmain
+      · exact processRedirect_loginInv cfg r
+          { s with numRedirects := if hasLoc = true then s.numRedirects + 1 else s.numRedirects } s' st hasLoc tgt ⟨hi.1, hi.2⟩ hmain
+      · split at hmain
+        · split at hmain
+          · cases hmain; exact ⟨hi.1, by intro q' hq'; simp at hq'⟩
+          · cases hmain
+            exact setCur_loginInv (s := { s with numRedirects := _, loopType := _, hostsWithAuth := _ }) ⟨hi.1, hi.2⟩
+              (LoginOk.of_eq hq (addBasicAuth_login cfg q).1 (addBasicAuth_login cfg q).2)
+        · cases hmain; exact ⟨hi.1, by intro q' hq'; simp at hq'⟩
+    split at h
+    · split at h
+      · rename_i nr hnr
+        cases h
+        exact setCur_loginInv (s := { s' with jarCalls := _ }) ⟨hs'.1, hs'.2⟩
+          (LoginOk.of_eq (hs'.2 nr hnr) (by simp [addCookies]) (by simp [addCookies]))
+      · cases h; exact hs'
+    · cases h; exact hs'
+
+theorem run_login (cfg : Cfg) (adv : List Req → Reply) (r : Req) :
+    ∀ (n : Nat) (s : Sess) (sent : List Req) (last fu ar : Nat),
+      LoginInv r s → (∀ h ∈ sent, LoginOk r h) →
+      ∀ h ∈ (run cfg adv n s sent last fu ar).sent, LoginOk r h := by
+  intro n
+  induction n with
+  | zero => intro s sent _ _ _ _ hs; unfold run; exact hs
+  | succ n ih =>
+    intro s sent last fu ar hi hs
+    unfold run
+    split
+    · exact hs
+    · rename_i q hcur
+      have hq2 : LoginOk r (sendPrep cfg s q) :=
+        LoginOk.of_eq (hi.2 q hcur) (sendPrep_login cfg s q).1 (sendPrep_login cfg s q).2
+      have hs' : ∀ h ∈ sent ++ [sendPrep cfg s q], LoginOk r h := by
+        intro h hh
+        rcases List.mem_append.mp hh with hh | hh
+        · exact hs h hh
+        · simp at hh; subst hh; exact hq2
+      split
+      · exact hs
+      · exact hs
+      simp only []
+      split
+      · exact hs
+      · split
+        · exact hs'
+        · exact hs
+        · split
+          · exact hs'
+          · rename_i s2 hpr
+            have hi2 := processResponse_loginInv cfg r _ s2 _ _ _ _ (setCur_loginInv hi hq2) hq2 hpr
+            split
+            · split
+              · exact ih _ _ _ _ _ hi2 hs'
+              · exact ih _ _ _ _ _ hi2 hs'
+            · exact ih _ _ _ _ _ hi2 hs'
+
+/-- `every_hop_login_is_configured`: on every hop of every chain (with or without cookie jar, every
+server) the request's login attributes — the only credentials `_process_authentication` answers a 401
+challenge with besides the hop URL's own user-info — are those of the FIRST request (the configured
+`--http-user and --http-password`, see `populateLogin`) or empty; they are never taken from the URL of an
+earlier hop.  With `every_hop_host_and_credentials` / `addBasicAuth`: an Authorization value is made
+from the hop's own URL and the configured login only. -/
+theorem every_hop_login_is_configured (cfg : Cfg) (adv : List Req → Reply) (r : Req) :
+    ∀ h ∈ (session cfg adv r).sent,
+      (h.username = r.username ∧ h.password = r.password) ∨ (h.username = [] ∧ h.password = []) := by
+  unfold session
+  apply run_login cfg adv r
+  · unfold initSess LoginInv
+    simp only []
+    split
+    · exact ⟨Or.inl ⟨by simp [addCookies], by simp [addCookies]⟩,
+             by intro q hq; simp at hq; subst hq; exact Or.inl ⟨by simp [addCookies], by simp [addCookies]⟩⟩
+    · exact ⟨Or.inl ⟨rfl, rfl⟩, by intro q hq; simp at hq; subst hq; exact Or.inl ⟨rfl, rfl⟩⟩
+  · intro h hh; cases hh
+
+/-- the processor never derives the login attributes from the URL -/
+theorem populateLogin_ignores_url (r : Req) (u : UrlC) (l : Option (Str × Str)) :
+    (populateLogin { r with url := u } l).username = (populateLogin r l).username ∧
+    (populateLogin { r with url := u } l).password = (populateLogin r l).password := by
+  unfold populateLogin; cases l with
+  | none => exact ⟨rfl, rfl⟩
+  | some p => exact ⟨rfl, rfl⟩
+
 def exUrlB : UrlC :=
   { scheme := lit "https", hostname := lit "b.example", port := 443, ipv6 := false, path := lit "/y", query := [],
     username := [], password := [], normUser := [], normPass := [] }
